@@ -647,6 +647,8 @@ def check(run):
 
     from ..rigidrule import rigid_rule
     rigid_rule(run, ix, "T16", "C19")
+    from ..rigidrule import fix_rigid_rule
+    fix_rigid_rule(run, ix, "T17", "C19")
     # -------------------------------------------------------------------- T14 unit_vector divides by the norm unconditionally
     run.rule("T14", "unit_vector normalises every non-zero vector: the division by the norm is not skipped under a magnitude threshold (a tiny axis is still an axis)")
     f_uv = ix.func("trimesh.transformations:unit_vector")
